@@ -445,6 +445,15 @@ func applyValue(c *hintadv.Call, s Strat, ps *paramSet) (changed, feasible bool)
 	return true, true
 }
 
+// seqTarget maps a strategy's Seq to an invocation index among n: non-negative counts from the first
+// invocation, negative from the last (-1 = last).
+func seqTarget(seq, n int) int {
+	if seq >= 0 {
+		return seq % n
+	}
+	return n - 1 - ((-seq - 1) % n)
+}
+
 // strategy builds the hintadv strategy for one adversarial solve.
 func strategy(strats []Strat, counts map[string]int, ps *paramSet, au *advAudit) hintadv.Strategy {
 	return func(c *hintadv.Call) bool {
@@ -470,11 +479,7 @@ func strategy(strats []Strat, counts map[string]int, ps *paramSet, au *advAudit)
 			if n <= 0 {
 				continue
 			}
-			seq := s.Seq
-			if seq < 0 {
-				seq = -seq
-			}
-			if seq%n != c.Seq {
+			if seqTarget(s.Seq, n) != c.Seq {
 				continue
 			}
 			var ch, feas bool
